@@ -94,13 +94,22 @@ type RPCCase struct {
 	PreCancel bool   `json:"pre_cancel,omitempty"` // the request arrives with an already cancelled context
 	// LockStep (real connections, lockstep.go): after sending message k the
 	// handler waits until the client has reported receiving it.
-	LockStep bool   `json:"lock_step,omitempty"`
-	Client   string `json:"client,omitempty"` // lock-step lane: h1-http | h2c-http | grpc | h1-web
-	Opts     Opts   `json:"opts"`
+	// HTTP transcoding: Content-Type / Accept header values sent verbatim
+	// ("-" = header absent); malformed and parameterised values included.
+	ContentType string `json:"content_type,omitempty"`
+	Accept      string `json:"accept,omitempty"`
+	LockStep    bool   `json:"lock_step,omitempty"`
+	Client      string `json:"client,omitempty"` // lock-step lane: h1-http | h2c-http | grpc | h1-web
+	Opts        Opts   `json:"opts"`
 }
 
 func (c *RPCCase) unary() bool   { return c.Method == "Echo" }
 func (c *RPCCase) proxied() bool { return strings.HasPrefix(c.Target, "proxy") }
+
+// noSuchMethod: the call names a method no service or live connection has.
+func (c *RPCCase) noSuchMethod() bool {
+	return c.Method == "Nope" || c.Method == "OtherSvc" || c.Target == "proxy-dropped"
+}
 
 // ended: the call's context ends before the handler returns.
 func (c *RPCCase) ended() bool { return c.WaitCtx || c.CancelMid || c.PreCancel || c.Timeout != "" }
@@ -342,6 +351,16 @@ func (s *rpcSvc) muxFor(target string, o Opts) (*larking.Mux, error) {
 			return nil, errors.New("no backend")
 		}
 		m, err = s.be.newProxyMux(mo...)
+	} else if target == "proxy-dropped" {
+		if s.be == nil {
+			return nil, errors.New("no backend")
+		}
+		// registered through RegisterConn, then the connection is dropped
+		if m, err = s.be.newProxyMux(mo...); err == nil {
+			ctx, cancel := context.WithTimeout(context.Background(), 10*time.Second)
+			m.DropConn(ctx, s.be.cc)
+			cancel()
+		}
 	} else if target == "proxy-down" {
 		if s.beDown == nil {
 			return nil, errors.New("no stopped backend (option set not prepared)")
@@ -719,6 +738,22 @@ func (s *rpcSvc) request(c *RPCCase, id string) (*http.Request, bool) {
 		hdr.Set("Grpc-Timeout", c.Timeout)
 	}
 	full := s.std.Full(c.Method)
+	if c.Method == "OtherSvc" {
+		full = "/vf.c18x.Other/Get" // a service nobody registered
+	}
+	if c.ContentType != "" || c.Accept != "" {
+		req, bodyless := s.request(&RPCCase{Proto: c.Proto, Method: c.Method, In: c.In, Timeout: c.Timeout}, id)
+		for k, v := range map[string]string{"Content-Type": c.ContentType, "Accept": c.Accept} {
+			switch v {
+			case "":
+			case "-":
+				req.Header.Del(k)
+			default:
+				req.Header[k] = []string{v}
+			}
+		}
+		return req, bodyless
+	}
 	var msgs [][]byte
 	for _, n := range c.In {
 		msgs = append(msgs, mustMarshal(chunkOfSize(n)))
@@ -735,6 +770,9 @@ func (s *rpcSvc) request(c *RPCCase, id string) (*http.Request, bool) {
 		return wire.WebRequest(full, hdr, framed, c.Proto == "webtext", ""), false
 	}
 	path := map[string]string{"Echo": "/p/echo", "CS": "/p/cs", "SS": "/p/ss", "Bidi": "/p/bidi"}[c.Method]
+	if path == "" {
+		path = full
+	}
 	switch c.Proto {
 	case "http-get":
 		return wire.BodyRequest("GET", path+"/x", "", hdr, nil), true
@@ -905,6 +943,12 @@ func (s *rpcSvc) check(c *RPCCase, o *outcome) (vs []viol, obs map[string]int) {
 	// A unary call that is already over when it is dispatched fails in the
 	// request decode step, in front of the interceptor (as in grpc-go).
 	decodeFailed := c.unary() && c.expired() && nUI == 0 && (pc == "grpc" || pc == "web")
+	if c.unary() && nUI == 0 && (c.ContentType != "" || c.Accept != "") && (count(ev, "h", "recv-err") > 0 || c.proxied()) {
+		// the request could not be decoded (no codec for the media type):
+		// generated code fails in front of the interceptor; for a proxied
+		// method that step is inside larking's forwarder
+		decodeFailed = true
+	}
 	if c.unary() {
 		if uiOn && nUI != 1 && !decodeFailed {
 			add(fmt.Sprintf("%s:unary-interceptor-calls=%d:unary", tp, min(nUI, 2)), fmt.Sprintf("unary RPC %s passed through the unary interceptor %d times", full, nUI))
@@ -985,6 +1029,17 @@ func (s *rpcSvc) check(c *RPCCase, o *outcome) (vs []viol, obs map[string]int) {
 	// a call that ended before the handler returned nil still fails (in
 	// larking's own send of the reply / status): no expectation from nil
 	lenient := c.ended() && finalErr == nil
+	oddHeaders := c.ContentType != "" || c.Accept != ""
+	if oddHeaders && c.proxied() && !((c.unary() && uiOn) || (!c.unary() && siOn)) {
+		// the forwarder's own sends to the client may fail (no codec): the
+		// back-end's view is not larking's handler's
+		finalKnown = false
+	}
+	if oddHeaders && finalErr == nil && c.unary() {
+		// the reply may have no codec for the negotiated media type: larking's
+		// own send of it fails after the handler returned nil
+		lenient = true
+	}
 	if c.ended() && count(ev, "h", "ctx-not-done") > 0 {
 		obs["ended_call_handler_ctx_not_done"]++
 		finalKnown = false
@@ -1127,6 +1182,9 @@ func (s *rpcSvc) check(c *RPCCase, o *outcome) (vs []viol, obs map[string]int) {
 		}
 	}
 	countOutKnown := !c.ended() // sends of a call that has ended fail inside larking
+	if oddHeaders && (c.unary() || c.proxied()) {
+		countOutKnown = false
+	}
 	if c.proxied() && c.ended() {
 		countKnown = false
 	}
@@ -1352,7 +1410,13 @@ func (g *c18run) group(base RPCCase, optsList []Opts) {
 			g.r.Violate(out.Panic.Key()+":"+c.sizeClass(), fmt.Sprintf("%s %s %s with %s panicked: %s", c.Target, c.Proto, c.Method, o.key(), out.Panic.Value), &c)
 			continue
 		}
-		vs, obs := g.s.check(&c, out)
+		var vs []viol
+		var obs map[string]int
+		if !c.noSuchMethod() {
+			vs, obs = g.s.check(&c, out)
+		} else {
+			g.r.Count("calls_to_methods_nobody_serves", 1)
+		}
 		for k, n := range obs {
 			g.r.Count(k, n)
 		}
@@ -1608,6 +1672,56 @@ func RunC18(r *mon.Run) {
 					}
 					jobs = append(jobs, job{c, downOpts})
 				}
+			}
+		}
+	}
+	// Content-Type / Accept header values as a request dimension of HTTP
+	// transcoding: parameterised, malformed, unknown, upper-case, absent
+	hdrOpts := []Opts{{}, {Stats: true}, {Unary: "rec", Stream: "rec"}, {Unary: "rec", Stream: "rec", Stats: true}}
+	cts := []string{"application/json; charset=utf-8", "application/json; charset", "application/json; =", "application/json;", "application/json ; charset=\"utf-8", "APPLICATION/JSON", "application/protobuf; x=y", "text/plain", "application/x-unknown", "json", ";", "-"}
+	accepts := []string{"application/json; charset=utf-8", "application/json;q=0.5, */*;q=0.1", "application/json; q", "*/*", "application/protobuf", "text/html", ";;", ","}
+	for _, target := range []string{"local", "proxy"} {
+		for _, method := range methods {
+			for _, p := range []string{"http-json", "http-implicit", "http-get", "http-nobody"} {
+				if (p == "http-get" || p == "http-nobody") && method != "Echo" && method != "SS" {
+					continue
+				}
+				in, out := shapeIO(method, 5, 2, 2)
+				if p == "http-get" || p == "http-nobody" {
+					in = nil
+				}
+				for _, ct := range cts {
+					jobs = append(jobs, job{RPCCase{Part: "rpc", Target: target, Proto: p, Method: method, In: in, Out: out, ContentType: ct}, hdrOpts})
+				}
+				for _, ac := range accepts {
+					jobs = append(jobs, job{RPCCase{Part: "rpc", Target: target, Proto: p, Method: method, In: in, Out: out, Accept: ac}, hdrOpts})
+				}
+			}
+		}
+	}
+	// calls to methods nobody serves: unknown method of a registered service,
+	// unregistered service, methods of a connection that was dropped - under
+	// every option mask the outcome is the plain mux's
+	nsmOpts := append(append([]Opts(nil), combos...), Opts{Stats: true, Mutate: true}, Opts{Unary: "ctx", Stream: "ctx", Stats: true})
+	for _, p := range []string{"grpc", "web", "webtext", "http-implicit", "http-json"} {
+		for _, size := range []int{0, 5} {
+			for _, method := range []string{"Nope", "OtherSvc"} {
+				if p == "http-json" {
+					continue
+				}
+				for _, target := range []string{"local", "proxy"} {
+					jobs = append(jobs, job{RPCCase{Part: "rpc", Target: target, Proto: p, Method: method, In: []int{size}, Out: []int{size}}, nsmOpts})
+				}
+			}
+			for _, method := range methods {
+				in, out := shapeIO(method, size, 2, 2)
+				var ol []Opts
+				for _, o := range nsmOpts {
+					if o.Unary != "ctx" {
+						ol = append(ol, o)
+					}
+				}
+				jobs = append(jobs, job{RPCCase{Part: "rpc", Target: "proxy-dropped", Proto: p, Method: method, In: in, Out: out}, ol})
 			}
 		}
 	}
